@@ -17,6 +17,7 @@ import (
 	"encoding/json"
 	"fmt"
 	"math"
+	"math/big"
 	"math/rand"
 	"os"
 	"path/filepath"
@@ -261,8 +262,8 @@ func runC08(r *evid.Run) {
 	if r.Thorough() {
 		cfg = "NumLit_thorough.cfg"
 	}
-	rowPath := filepath.Join(scratch, "rows.ndjson")
-	res2, err := tlc.Run(tlc.Options{SpecDir: specDir, Module: "NumLit", Cfg: cfg, Workers: 8, Timeout: 20 * time.Minute, Env: map[string]string{"ROWS": rowPath}})
+	rowPath, widePath, lqPath := filepath.Join(scratch, "rows.ndjson"), filepath.Join(scratch, "widerows.ndjson"), filepath.Join(scratch, "lqrows.ndjson")
+	res2, err := tlc.Run(tlc.Options{SpecDir: specDir, Module: "NumLit", Cfg: cfg, Workers: 8, Timeout: 20 * time.Minute, Env: map[string]string{"ROWS": rowPath, "WIDEROWS": widePath, "LQROWS": lqPath}})
 	if err != nil {
 		r.Inconclusive("tlc: %v", err)
 		return
@@ -273,6 +274,157 @@ func runC08(r *evid.Run) {
 	}
 	states += res2.Distinct
 	transitions += res2.Generated
+	// the same laws beyond TLC's integers: rows on bit sequences, digits written here with big integers
+	var wideRows int64
+	werr := readNDJSON(widePath, func(b []byte) error {
+		var row struct {
+			Nt   string `json:"nt"`
+			Size int    `json:"size"`
+			Bits []int  `json:"bits"`
+			Den  struct {
+				Ok    bool   `json:"ok"`
+				Width int    `json:"width"`
+				Type  string `json:"type"`
+			} `json:"den"`
+			Padded []int `json:"padded"`
+		}
+		if err := json.Unmarshal(b, &row); err != nil {
+			return err
+		}
+		wideRows++
+		v, _ := new(big.Int).SetString(bitsStr(row.Bits), 2)
+		digits := ""
+		switch row.Nt {
+		case "0uS", "0dS":
+			digits = v.Text(10)
+		case "0bS":
+			digits = bitsStr(row.Bits)
+		case "0xS":
+			digits = v.Text(16)
+			for len(digits) < (len(row.Bits)+3)/4 {
+				digits = "0" + digits
+			}
+		}
+		text := row.Nt[:2] + "<" + strconv.Itoa(row.Size) + ">" + digits
+		n, ierr := bmnumbers.ImportString(text)
+		ctx := map[string]interface{}{"literal": text, "spec": row.Den}
+		if !row.Den.Ok {
+			if ierr == nil {
+				bin, wd, t, _ := numInfo(n)
+				ctx["real"] = fmt.Sprintf("%s/%d/%s", bin, wd, t)
+				r.Violate("accepted-invalid:wide:"+row.Nt, fmt.Sprintf("%q states a width its digits do not fit and is accepted as %v", text, ctx["real"]), ctx)
+			}
+			return nil
+		}
+		if ierr != nil {
+			r.Violate("rejected-valid:wide:"+row.Nt, fmt.Sprintf("%q fits the width it states and is rejected: %v", text, ierr), ctx)
+			return nil
+		}
+		r.Distinct("wide|" + text)
+		bin, wd, typ, err := numInfo(n)
+		if err != nil {
+			r.Violate("export-error:wide:"+row.Nt, fmt.Sprintf("%q imports but cannot be exported: %v", text, err), ctx)
+			return nil
+		}
+		ctx["real"] = fmt.Sprintf("%s/%d/%s", bin, wd, typ)
+		want := strings.TrimLeft(bitsStr(row.Bits), "0")
+		if want == "" {
+			want = "0"
+		}
+		if bin != want || typ != row.Den.Type {
+			r.Violate("denotation:wide:"+row.Nt, fmt.Sprintf("%q denotes %s (binary) of type %s but imports as %s of type %s", text, want, row.Den.Type, bin, typ), ctx)
+			return nil
+		}
+		if wd != row.Den.Width {
+			r.Violate("width:wide:"+row.Nt, fmt.Sprintf("%q states width %d but the imported pattern has width %d", text, row.Den.Width, wd), ctx)
+			return nil
+		}
+		if len(row.Padded) > 0 {
+			if s, err := n.ExportBinaryNBits(row.Size); err != nil || s != bitsStr(row.Padded) {
+				r.Violate("nbits-value:wide:"+row.Nt, fmt.Sprintf("ExportBinaryNBits(%d) of %q = %q (%v), expected %s", row.Size, text, s, err, bitsStr(row.Padded)), ctx)
+			}
+			if vb, err := n.ExportVerilogBinary(); err != nil || vb != strconv.Itoa(row.Size)+"'b"+bitsStr(row.Padded) {
+				r.Violate("verilog-value:wide:"+row.Nt, fmt.Sprintf("ExportVerilogBinary of %q = %q (%v), expected %d'b%s", text, vb, err, row.Size, bitsStr(row.Padded)), ctx)
+			}
+		}
+		s, err := n.ExportString(nil)
+		if err != nil {
+			r.Violate("export-error:wide:"+row.Nt, fmt.Sprintf("%q imports but ExportString fails: %v", text, err), ctx)
+			return nil
+		}
+		n2, err := bmnumbers.ImportString(s)
+		if err != nil {
+			r.Violate("roundtrip:wide:"+row.Nt, fmt.Sprintf("%q exports as %q which cannot be imported: %v", text, s, err), ctx)
+			return nil
+		}
+		if bin2, wd2, typ2, _ := numInfo(n2); bin2 != bin || typ2 != typ || (typ != "unsigned" && wd2 != wd) {
+			r.Violate("roundtrip:wide:"+row.Nt, fmt.Sprintf("%q exports as %q which imports as %s/%d/%s, not %v", text, s, bin2, wd2, typ2, ctx["real"]), ctx)
+		}
+		return nil
+	})
+	if werr != nil {
+		r.Inconclusive("wide rows: %v", werr)
+		return
+	}
+	r.Set("wide_literal_rows", wideRows)
+	// the linear quantiser: band numbers as two's complement patterns of the stated width
+	const lqRange, lqMax = 7, 8.0
+	for _, d := range bmnumbers.AllDynamicalTypes {
+		if lq, ok := d.(bmnumbers.DynLinearQuantizer); ok {
+			(*lq.Ranges)[lqRange] = bmnumbers.LinearDataRange{Max: lqMax}
+		}
+	}
+	var lqRows int64
+	lerr := readNDJSON(lqPath, func(b []byte) error {
+		var row struct {
+			Size int   `json:"size"`
+			Band int64 `json:"band"`
+			Bits []int `json:"bits"`
+		}
+		if err := json.Unmarshal(b, &row); err != nil {
+			return err
+		}
+		lqRows++
+		x := float64(row.Band) * lqMax / float64(int64(1)<<uint(row.Size-1))
+		text := fmt.Sprintf("0lq<%d.%d>%s", row.Size, lqRange, strconv.FormatFloat(x, 'f', -1, 64))
+		ctx := map[string]interface{}{"literal": text, "band": row.Band, "bits": bitsStr(row.Bits)}
+		n, err := bmnumbers.ImportString(text)
+		if err != nil {
+			r.Violate("rejected-valid:lq", fmt.Sprintf("%q (band %d of a %d-bit quantiser) is rejected: %v", text, row.Band, row.Size, err), ctx)
+			return nil
+		}
+		r.Distinct("lq|" + text)
+		want := bitsStr(row.Bits)
+		if s, err := n.ExportBinaryNBits(row.Size); err != nil || s != want {
+			r.Violate("nbits-value:lq", fmt.Sprintf("ExportBinaryNBits(%d) of %q = %q (%v), expected %s", row.Size, text, s, err, want), ctx)
+			return nil
+		}
+		if vb, err := n.ExportVerilogBinary(); err != nil || vb != strconv.Itoa(row.Size)+"'b"+want {
+			r.Violate("verilog-value:lq", fmt.Sprintf("ExportVerilogBinary of %q = %q (%v), expected %d'b%s", text, vb, err, row.Size, want), ctx)
+			return nil
+		}
+		s, err := n.ExportString(nil)
+		if err != nil {
+			r.Violate("export-error:lq", fmt.Sprintf("%q imports but ExportString fails: %v", text, err), ctx)
+			return nil
+		}
+		n2, err := bmnumbers.ImportString(s)
+		if err != nil {
+			r.Violate("roundtrip:lq", fmt.Sprintf("%q exports as %q which cannot be imported: %v", text, s, err), ctx)
+			return nil
+		}
+		b1, _ := n.ExportBinary(true)
+		b2, _ := n2.ExportBinary(true)
+		if b1 != b2 || n.GetTypeName() != n2.GetTypeName() {
+			r.Violate("roundtrip:lq", fmt.Sprintf("%q exports as %q which imports as %s/%s, not %s/%s", text, s, b2, n2.GetTypeName(), b1, n.GetTypeName()), ctx)
+		}
+		return nil
+	})
+	if lerr != nil {
+		r.Inconclusive("lq rows: %v", lerr)
+		return
+	}
+	r.Set("linear_quantizer_rows", lqRows)
 	var rows, lock int64
 	lockKinds := map[string]int{}
 	noteLock := func(kind string) { lock++; lockKinds[kind]++ }
